@@ -479,9 +479,12 @@ Definition final_ok (strict : bool) (n : nat) (h : hist) : bool :=
   complete_ok h && forallb (ok_acks_final strict h) (seq 0 n).
 
 (* [final]: the history ends in a quiescent state (the harness has waited for
-   the pipeline to finish) *)
-Definition monitor (strict : bool) (n : nat) (final : bool) (h : hist) : N :=
-  if safety_ok strict n h then (if final then (if final_ok strict n h then 0 else 1) else 0) else 1.
+   the pipeline to finish); [fdrain]: the DrainSends call issued in that state
+   without a deadline returned nil (true when the server had been stopped) *)
+Definition monitor (strict : bool) (n : nat) (final fdrain : bool) (h : hist) : N :=
+  if safety_ok strict n h
+  then (if final then (if final_ok strict n h && fdrain then 0 else 1) else 0)
+  else 1.
 
 (* ---- what the model predicts about an implementation run (acceptance) ------------------ *)
 
@@ -519,8 +522,8 @@ Definition batches_disjoint (c : cfg) (a b : hbatch) : bool :=
 Inductive c28_kind :=
 | KSplit (maxrec : nat) (maxbytes : N) (sizes : list N) (impl : list (list N))
   (* impl = item indexes of each sub-batch the real dispatchMailboxBatch produced *)
-| KConc (c : cfg) (workers per_worker : N) (final : bool) (h : hist) (batches : list hbatch) (maxdepth : N)
-| KSeq (c : cfg) (evs : list ev) (final : bool) (h : hist) (queued_end : N) (shq_end : list N).
+| KConc (c : cfg) (workers per_worker : N) (final fdrain : bool) (h : hist) (batches : list hbatch) (maxdepth : N)
+| KSeq (c : cfg) (evs : list ev) (final fdrain : bool) (h : hist) (queued_end : N) (shq_end : list N).
 
 Record c28_case := C28Case { c28_kind_of : c28_kind }.
 
@@ -562,17 +565,17 @@ Definition C28_mismatch (c : c28_case) : bool :=
   | KSplit maxrec maxbytes sizes impl =>
       negb (list_eqb list_N_eqb
               (map (map fst) (split snd maxrec maxbytes (index_from 0 sizes))) impl)
-  | KConc c workers per_worker final h batches maxdepth =>
+  | KConc c workers per_worker final fdrain h batches maxdepth =>
       negb (geometry_ok c workers per_worker
             && forallb (batch_shape_ok c) batches
             && all_pairs (batches_disjoint c) batches
             && (maxdepth <=? c_cap c))
-  | KSeq c evs final h queued_end shq_end => negb (seq_agrees c evs h queued_end shq_end)
+  | KSeq c evs final fdrain h queued_end shq_end => negb (seq_agrees c evs h queued_end shq_end)
   end.
 
 Definition C28_monitor (c : c28_case) : N :=
   match c28_kind_of c with
   | KSplit _ _ _ _ => 0
-  | KConc c _ _ final h _ _ => monitor (c_closeonerr c) (c_nsess c) final h
-  | KSeq c _ final h _ _ => monitor (c_closeonerr c) (c_nsess c) final h
+  | KConc c _ _ final fdrain h _ _ => monitor (c_closeonerr c) (c_nsess c) final fdrain h
+  | KSeq c _ final fdrain h _ _ => monitor (c_closeonerr c) (c_nsess c) final fdrain h
   end.
